@@ -139,6 +139,28 @@ def programs():
             fw = dict(f, forward=True)
             yield lab + ":local-value-arg-silent:forward-declared", prog([], [fw, f2], [("expr", ("call", "fn_lokal", [("u", ("int", 0))]))])
             yield lab + ":local-copy-value-arg-silent:forward-declared", prog([], [fw, f3], [("expr", ("call", "fn_lokal2", [("u", ("int", 0))]))])
+            # recursion: the function hands its own value parameter to its own Referenz parameter, and changes that Referenz
+            # parameter only further down in its text (what is known about a function while it is still being looked at)
+            for order in ("call-first", "change-first"):
+                rec = [("expr", ("call", "fn_rek", [("r", ("var", "v")), ("v", ("var", "v")), ("n", ("int", 1))]))] + dump("v", ty)
+                chg = mut(("var", "r"))
+                cond = ("bin", "eq", ("var", "n"), ("int", 0))
+                body = [("if", cond, rec, chg)] if order == "call-first" else [("if", ("un", "not", cond), chg, rec)]
+                f = dict(name="fn_rek", params=[("r", ty, True), ("v", ty, False), ("n", "Z", False)], ret="N", body=body)
+                f2 = dict(name="fn_lokal", params=[("u", "Z", False)], ret="N",
+                          body=[("decl", ty, "lx", v1), ("decl", ty, "ly", v2),
+                                ("expr", ("call", "fn_rek", [("r", ("var", "lx")), ("v", ("var", "ly")), ("n", ("int", 0))]))]
+                          + dump("ly", ty) + dump("lx", ty))
+                yield lab + ":recursive-value-as-ref:" + order, prog([], [f, f2], [("expr", ("call", "fn_lokal", [("u", ("int", 0))]))])
+            # returning a value parameter the function never changes: the result is a value of its own, whoever owned the argument
+            # (a local of the caller, a copy of it, a global, a temporary)
+            f = dict(name="fn_selbst", params=[("p", ty, False)], ret=ty, body=[("ret", ("var", "p"))])
+            f2 = dict(name="fn_lokal", params=[("u", "Z", False)], ret="N",
+                      body=[("decl", ty, "lok", v1), ("decl", ty, "erg", ("call", "fn_selbst", [("p", ("var", "lok"))]))] + mut(("var", "erg")) + dump("lok", ty) + dump("erg", ty)
+                      + mut(("var", "lok")) + dump("erg", ty))
+            yield lab + ":return-own-parameter:local", prog([], [f, f2], [("expr", ("call", "fn_lokal", [("u", ("int", 0))]))])
+            yield lab + ":return-own-parameter:global", prog([da], [f], [("decl", ty, "b", ("call", "fn_selbst", [("p", a)]))] + mut(b) + dump("a", ty) + dump("b", ty))
+            yield lab + ":return-own-parameter:temporary", prog([], [f], [("decl", ty, "b", ("call", "fn_selbst", [("p", v1)]))] + mut(b) + dump("b", ty))
             # returning: the result is a copy of the global
             f = dict(name="fn_gib", params=[("u", "Z", False)], ret=ty, body=[("ret", a)])
             yield lab + ":return", prog([da], [f], [("decl", ty, "b", ("call", "fn_gib", [("u", ("int", 0))]))] + mut(b) + dump("a", ty) + dump("b", ty))
